@@ -590,6 +590,28 @@ class PathFlow:
             self._active.discard(g.sig)
         return self._sum[g.sig]
 
+    def return_terms(self, g):
+        """the terms (in g's own parameters) of everything g can return, a conditional expression counting as both its arms; None when g
+        cannot be read"""
+        if not g.ok or g.sig in self._active:
+            return None
+        fl = self.flow(g)
+        out = []
+
+        def arms(n):
+            n0 = strip_views(n)
+            if n0 is not None and n0.get("k") == "cond" and isinstance(n0.get("t"), dict) and isinstance(n0.get("f"), dict):
+                return arms(n0["t"]) + arms(n0["f"])
+            return [n]
+        for e in g.stmts():
+            if e.node.get("k") == "ret" and "root" in e.raw and isinstance(e.node.get("v"), dict):
+                st = fl.before(e)
+                if st is None:
+                    continue
+                # (the arms of `c ? a : b` are evaluated in predecessor blocks; the variables they read are not written in between)
+                out += [self.term(g, st, a) for a in arms(e.node["v"])]
+        return out or None
+
     # ---- readers: functions that hand one of their own path parameters, unchanged, to the file-opening primitive (directly or through another reader)
     def readers(self, seed):
         """seed: {Function: {parameter index}} (readFile).  Returns (readers, sites): readers = {sig: (Function, {param index})};
@@ -873,14 +895,41 @@ def r2(ctx, r):
                 return True
         return False
 
+    def const_chars(g, n, depth=0):
+        """the characters of a constant string / string_view expression (a literal, possibly with an explicit length, possibly named by a const
+        local), or None"""
+        n = strip_casts(n)
+        if n is None or depth > 4:
+            return None
+        if n.get("k") == "str":
+            return n.get("v", "")
+        if n.get("k") == "var" and n.get("parm") is None:
+            vs = decl_vars(g).get(n.get("d"), [])
+            return const_chars(g, vs[0]["init"], depth + 1) if len(vs) == 1 and "const" in (vs[0].get("t") or "") and isinstance(vs[0].get("init"), dict) else None
+        if n.get("k") == "ctor" and n.get("cls") in ("std::basic_string_view", "std::basic_string"):
+            a = xargs(n)
+            if len(a) == 1:
+                v = const_chars(g, a[0], depth + 1)
+                # a bare literal converted without a length ends at its first NUL
+                return v.split("\0")[0] if v is not None and strip_casts(a[0]).get("k") == "str" else v
+            if len(a) == 2 and strip_casts(a[0]).get("k") == "str" and const_value(a[1]) is not None:
+                return strip_casts(a[0]).get("v", "")[:const_value(a[1])]
+        return None
+
     def contains_char(v):
+        # p.find(c) != npos, or p.find_first_of(<constant set that holds c>) != npos
         def pred(g, c, t, pd):
             cp = _cmp_true(c, t)
             if not cp or cp[0] != "!=":
                 return False
             for a, b in ((cp[1], cp[2]), (cp[2], cp[1])):
                 a0, b0 = strip_views(a), strip_casts(b)
-                if _on_request(a0, pd, ("find",)) and len(xargs(a0)) == 1 and is_char(xargs(a0)[0], v) and b0 is not None and b0.get("k") == "gvar" and last(b0.get("n", "")) == "npos":
+                if not (b0 is not None and b0.get("k") == "gvar" and last(b0.get("n", "")) == "npos") or not _on_request(a0, pd, ("find", "find_first_of")) or len(xargs(a0)) != 1:
+                    continue
+                if is_char(xargs(a0)[0], v):
+                    return True
+                cs = const_chars(g, xargs(a0)[0]) if last(a0.get("callee", "")) == "find_first_of" else None
+                if cs is not None and chr(v) in cs:
                     return True
             return False
         return pred
@@ -897,11 +946,15 @@ def r2(ctx, r):
     need = [("leading '/'", first_char), ("NUL byte", contains_char(0)), ("backslash", contains_char(92)), ("'..' segment", dotdot)]
     # a verdict the rule cannot read — a returned variable that is assigned along the way (`bad = true; … return bad;`), a helper that is not
     # handed the request itself — may hold any of the rejections: a rejection that is not found elsewhere is then a refusal, not a report
-    opaque = sorted({show(c)[:40] for (g, c, t, pd) in leaves if c.get("k") == "var" or (c.get("k") in ("call", "mcall") and pf.local_fn(c) is not None)})
-    hits = {}
+    opaque = {show(c)[:40] for (g, c, t, pd) in leaves if c.get("k") == "var" or (c.get("k") in ("call", "mcall") and pf.local_fn(c) is not None)}
+    hits = {k: [(g, c, t, pd) for (g, c, t, pd) in leaves if pred(g, c, t, pd)] for k, pred in need}
+    # … and so may a rejecting test on the request string itself that is none of the spellings the rule knows (`p.find_first_of(set)` with a
+    # set it cannot evaluate, an <algorithm> call over p)
+    matched = {id(c) for v in hits.values() for (g, c, t, pd) in v}
+    opaque |= {show(c)[:40] for (g, c, t, pd) in leaves if id(c) not in matched and any(x.get("k") == "var" and x.get("d") == pd for x in walk(c))}
+    opaque = sorted(opaque)
     for k, pred in need:
         r.instance()
-        hits[k] = [(g, c, t, pd) for (g, c, t, pd) in leaves if pred(g, c, t, pd)]
         if not hits[k] and opaque:
             raise AnalysisBroken("lexicallyRejected: no rejection of a %s found, and part of its verdict is computed in a way the rule cannot follow (%s)" % (k, ", ".join(opaque)))
         r.expect(len(hits[k]) >= 1, lx, None, "lexical rejection: %s" % k, "lexicallyRejected does not reject a %s (conditions that make it return true: %s)" % (k, conds), okdesc="rejects %s" % k)
@@ -915,11 +968,33 @@ def r2(ctx, r):
         # some other way is not one this clause can judge
         finds = [e for e in g.stmts() if _on_request(e.node, pd, ("find",)) and len(xargs(e.node)) == 2 and const_value(xargs(e.node)[0]) == 47 and var_d(xargs(e.node)[1], views=False) is not None]
         cur = var_d(xargs(finds[0].node)[1], views=False) if len(finds) == 1 else None
-        pos = [d for d, vs in decl_vars(g).items() for v in vs if isinstance(v.get("init"), dict) and strip_casts(v["init"]).get("id") == finds[0].node.get("id")] + \
-              [var_d(asg(n)[0], views=False) for n in g.nodes.values() if asg(n) and strip_casts(asg(n)[1]).get("id") == finds[0].node.get("id")] if len(finds) == 1 else []
+        # the position of the separator: the variable that holds the result of that search — as it is, or clamped to the end of the string
+        # (`stop = std::min(p.find('/', start), p.size())`: then one spelling, substr(start, stop - start), covers the last segment too)
+        def from_find(n):
+            n = strip_casts(n)
+            if n is None or len(finds) != 1:
+                return None
+            if n.get("id") == finds[0].node.get("id"):
+                return "plain"
+            if n.get("k") == "call" and n.get("callee") == "std::min" and len(n.get("args", [])) == 2:
+                a = [strip_casts(x) for x in n["args"]]
+                for x, y in ((a[0], a[1]), (a[1], a[0])):
+                    if x.get("id") == finds[0].node.get("id") and _on_request(y, pd, ("size", "length")):
+                        return "clamped"
+            return None
+        pos = [(d, from_find(v["init"])) for d, vs in decl_vars(g).items() for v in vs if isinstance(v.get("init"), dict) and from_find(v["init"])] + \
+              [(var_d(asg(n)[0], views=False), from_find(asg(n)[1])) for n in g.nodes.values() if asg(n) and from_find(asg(n)[1])]
         adv = [e for e in g.stmts() if asg(e.node) and var_d(asg(e.node)[0], views=False) == cur] if cur is not None else []
-        if len({g2.sig for (g2, c, t, pd2) in hits["'..' segment"]}) != 1 or len(finds) != 1 or len(pos) != 1 or pos[0] is None or len(adv) != 1:
-            raise AnalysisBroken("%s: the scan for '..' segments has a shape the rule cannot read (searches for '/' from a cursor: %d, cursor updates: %d)" % (last(g.name), len(finds), len(adv)))
+        # a loop condition on the cursor may only be "not past the end of the string"
+        loopc = [b for b in g.blocks.values() if b.term and b.term.get("k") in ("ForStmt", "WhileStmt", "DoStmt") and b.cond is not None and const_value(b.cond) is None]
+
+        def within(c):
+            cp = common.cmp_oriented(strip_casts(c), lambda x: _on_request(x, pd, ("size", "length")))
+            return bool(cp) and cp[0] in ("<", "<=") and var_d(cp[1], views=False) == cur
+        if len({g2.sig for (g2, c, t, pd2) in hits["'..' segment"]}) != 1 or len(finds) != 1 or len(pos) != 1 or pos[0][0] is None or len(adv) != 1 or not all(within(b.cond) for b in loopc):
+            raise AnalysisBroken("%s: the scan for '..' segments has a shape the rule cannot read (searches for '/' from a cursor: %d, cursor updates: %d, loop conditions: %d)" % (last(g.name), len(finds), len(adv), len(loopc)))
+        clamped = pos[0][1] == "clamped"
+        pos = [pos[0][0]]
         cinit = decl_vars(g).get(cur, [])
         ok = len(cinit) == 1 and const_value(cinit[0].get("init")) == 0
     if ok:
@@ -939,7 +1014,7 @@ def r2(ctx, r):
                         ln = strip_casts(a[1])
                         if ln.get("k") == "bin" and ln.get("op") == "-" and var_d(ln["lhs"], views=False) == pos[0] and var_d(ln["rhs"], views=False) == cur:
                             forms.add("inner")
-        ok = forms == {"last", "inner"}
+        ok = "inner" in forms if clamped else forms == {"last", "inner"}
     r.expect(ok, lx, None, "segment split", "the '..' test is not applied to every '/'-separated segment", okdesc="every '/'-separated segment tested")
 
 
@@ -949,6 +1024,22 @@ SITE_LABEL = {"getStaticEmbedded": "getStaticEmbedded(external)"}
 # the containment base each lookup has to use: the root stored (canonical) at construction, or the external directory canonicalised on the spot
 SITE_BASE = {"getStaticFilesystem": (("field", AS + "::FsState::staticsRoot"),), "getTemplateFilesystem": (("field", AS + "::FsState::templatesRoot"),),
              "getStaticEmbedded": (("canon", ("field", "iora::web::EmbeddedAssetRegistry::externalDir")),)}
+
+
+def callers_of(fb, F):
+    return [(G, x) for G in fb.in_file(AF) if G.ok for x in G.stmts() if x.node.get("k") in ("call", "mcall") and x.node.get("callee") == F.name]
+
+
+def site_owner(fb, F, depth=0):
+    """the lookup whose root a read in F has to be contained in: F itself when it is one of the known lookups; for a private function that is
+    called from exactly one of them (the external branch moved into a function of its own) that lookup; else None"""
+    nm = last(F.name)
+    if nm in SITE_BASE:
+        return nm
+    if depth >= 2 or F.access != "private":
+        return None
+    owners = {site_owner(fb, G, depth + 1) for G, x in callers_of(fb, F)}
+    return owners.pop() if len(owners) == 1 else None
 
 
 def forwarded(pf, F, t):
@@ -962,9 +1053,9 @@ def sanitised(av, bases=None):
     return t[0] == "canon" and "ecok" in fl and "regular" in fl and any(isinstance(x, tuple) and x[0] == "in" and (bases is None or x[1] in bases) for x in fl)
 
 
-def site_flow(r, pf, F, e, g, arg, av, st, note=""):
+def site_flow(r, pf, F, e, g, arg, av, st, note="", owner=None):
     """the sanitiser flow at one call that hands a locally computed path to the reader g"""
-    nm = last(F.name)
+    nm = owner or last(F.name)
     label = SITE_LABEL.get(nm, nm)
     t, fl = av
     d = var_d(arg)
@@ -1026,24 +1117,45 @@ def site_flow(r, pf, F, e, g, arg, av, st, note=""):
 
 def r3(ctx, r):
     pf = analysis(ctx)
+    fb = ctx.fb()
     per, refused = {}, []
     for (F, e, g, arg, av, st, note) in pf.sites:
         if forwarded(pf, F, av[0]):
             continue        # a forwarded parameter (the obligation is the caller's, R1) or its sibling (R7)
-        per.setdefault(last(F.name), []).append(e)
+        owner = site_owner(fb, F)
+        per.setdefault(owner or last(F.name), []).append((F, e))
         try:
-            site_flow(r, pf, F, e, g, arg, av, st, note)
+            site_flow(r, pf, F, e, g, arg, av, st, note, owner)
         except AnalysisBroken as ex:        # the other sites are still judged; the rule as a whole then refuses
             refused.append(str(ex))
     for nm in SITE_BASE:
         if nm not in per:
             refused.append("%s: no read found" % SITE_LABEL.get(nm, nm))
-    # external branch only for listed paths
+    # external branch only for listed paths: the read (or, when the branch is a function of its own, each call of it) is behind a test of the
+    # request against the registry's externalPaths list — isExternalPath(request), or the binary search that function makes, written in place
     ef = af(ctx, "getStaticEmbedded")
-    for e in per.get("getStaticEmbedded", []):
+    req = ef.params[0]["d"] if ef.params else None
+
+    def listed(c, t):
+        c = strip_casts(c)
+        if not t or c.get("k") not in ("call", "mcall") or not c.get("args"):
+            return False
+        if last(c.get("callee", "")) == "isExternalPath" and (c.get("callee") or "").startswith(AS + "::"):
+            return var_d(c["args"][0]) == req
+        if c.get("callee") == "std::binary_search" and len(c["args"]) >= 3 and var_d(c["args"][2]) == req:
+            first = strip_casts(c["args"][0])
+            if first.get("k") == "var":
+                vs = decl_vars(ef).get(first.get("d"), [])
+                first = strip_casts(vs[0]["init"]) if len(vs) == 1 and isinstance(vs[0].get("init"), dict) and first.get("d") not in assigned_ds(ef) else first
+            return first.get("k") == "member" and first.get("n", "").endswith("::externalPaths")
+        return False
+    for (F, e) in per.get("getStaticEmbedded", []):
+        points = [e] if F is ef else [x for G, x in callers_of(fb, F) if G is ef]
+        if F is not ef and len(points) != len(callers_of(fb, F)):
+            refused.append("%s is not called from getStaticEmbedded alone: the rule cannot place its reads behind the externalPaths test" % last(F.name))
+            continue
         r.instance()
-        r.expect(any(t and strip_casts(c).get("k") in ("call", "mcall") and last(strip_casts(c).get("callee", "")) == "isExternalPath" and strip_casts(c).get("args") and ef.params and var_d(strip_casts(c)["args"][0]) == ef.params[0]["d"]
-                     for c, t in dominating_facts(ef, e)), ef, e, "external allow-list", "the external directory is read for a path that is not in the registry's externalPaths list", okdesc="external read only for listed paths")
+        r.expect(bool(points) and all(any(listed(c, t) for c, t in dominating_facts(ef, x)) for x in points), F, e, "external allow-list", "the external directory is read for a path that is not in the registry's externalPaths list", okdesc="external read only for listed paths")
     if refused:
         raise AnalysisBroken("; ".join(refused))
 
@@ -1204,19 +1316,46 @@ def r6(ctx, r):
     # refusal, not a report)
     helpers = sorted({last(e.node["callee"]) for e in fd.stmts() if e.node.get("k") in ("call", "mcall") and (e.node.get("callee") or "").startswith(AS + "::")})
 
-    def expect(cond, where, construct, msg, okdesc):
-        if not cond and helpers:
+    def expect(cond, where, construct, msg, okdesc, unread=True):
+        if not cond and helpers and unread:
             raise AnalysisBroken("fromDirectory [%s]: not found in fromDirectory itself, which now calls %s — the rule does not follow the construction of the roots into helpers" % (construct, ", ".join(helpers)))
         return r.expect(cond, fd, where, construct, msg, okdesc=okdesc)
     r.instance()
     okc = len(cr) == 1 and cr[0]["d"] not in assigned_ds(fd)
-    expect(okc, None, "canonical root", "fromDirectory does not canonicalise the root", "canonicalRoot = canonical(root)")
+    expect(okc, None, "canonical root", "fromDirectory does not canonicalise the root", "canonicalRoot = canonical(root)",
+           unread=any(isinstance(v.get("init"), dict) and (strip_views(v["init"]) or {}).get("k") in ("call", "mcall") and ((strip_views(v["init"]) or {}).get("callee") or "").startswith(AS + "::") for vs in decl_vars(fd).values() for v in vs))
     crd = cr[0]["d"] if len(cr) == 1 else None
 
+    pf = analysis(ctx)
+
+    def via_helper(n, sub):
+        """the value is computed by a helper of the class from the canonical root and the sub-directory name: what the helper returns, written
+        in the caller's terms ("root" for the canonical root) — or None when n is no such call / the helper cannot be read"""
+        n = strip_views(n)
+        g = pf.local_fn(n) if n is not None and n.get("k") in ("call", "mcall") else None
+        ts = pf.return_terms(g) if g is not None else None
+        if ts is None:
+            return None
+
+        def sub_(t):
+            if t[0] == "param":
+                a = strip_views(n["args"][t[1]]) if t[1] < len(n.get("args", [])) else None
+                if a is not None and a.get("k") == "var" and a.get("d") == crd:
+                    return ("root",)
+                return ("str", a.get("v", "")) if a is not None and a.get("k") == "str" else ("unknown", "argument %d" % t[1])
+            return tuple(sub_(x) if isinstance(x, tuple) else x for x in t)
+        return [sub_(t) for t in ts]
+
     def from_root(n, sub):
+        ts = via_helper(n, sub)
+        if ts is not None:
+            return all(t in (("canon", ("join", ("root",), ("str", sub))), ("join", ("root",), ("str", sub))) for t in ts)
         return any(x.get("k") == "var" and x.get("d") == crd for x in walk(n)) and sub in [x.get("v") for x in walk(n) if x.get("k") == "str"]
 
     def canon_sub(n, sub):
+        ts = via_helper(n, sub)
+        if ts is not None:
+            return ("canon", ("join", ("root",), ("str", sub))) in ts
         n = strip_views(n)
         if n is None or n.get("k") != "call" or n.get("callee") not in CANON or not n["args"]:
             return False
@@ -1226,7 +1365,10 @@ def r6(ctx, r):
         ws = [e for e in fd.stmts() if asg(e.node) and show(strip_casts(asg(e.node)[0])).endswith(fld)]
         r.instance()
         ok = crd is not None and len(ws) >= 1 and any(canon_sub(asg(e.node)[1], sub) for e in ws) and all(from_root(asg(e.node)[1], sub) for e in ws)
-        expect(ok, ws[0] if ws else None, "root: %s" % fld, "%s is not derived from the canonical root" % fld, "%s = weakly_canonical(canonicalRoot / \"%s\")" % (fld, sub))
+        # a helper the rule could read and that does something else is a report like any other; one it could not read (or no write at all
+        # while helpers are called) is a refusal
+        unread = not ws or any((strip_views(asg(e.node)[1]) or {}).get("k") in ("call", "mcall") and ((strip_views(asg(e.node)[1]) or {}).get("callee") or "").startswith(AS + "::") and via_helper(asg(e.node)[1], sub) is None for e in ws)
+        expect(ok, ws[0] if ws else None, "root: %s" % fld, "%s is not derived from the canonical root" % fld, "%s = weakly_canonical(canonicalRoot / \"%s\")" % (fld, sub), unread=unread)
     # the roots are written nowhere else
     fb = ctx.fb()
     others = [(f, e) for f in fb.in_file(AF) if f.ok and f is not fd for e in f.stmts() if asg(e.node) and show(strip_casts(asg(e.node)[0])).endswith(("staticsRoot", "templatesRoot", "->root"))]
